@@ -66,7 +66,8 @@ type world struct {
 
 	mu         sync.Mutex
 	hdr        header
-	hdrStack   []header       // headers below the current one (for rollbacks)
+	hdrStack   []header // headers below the current one (for rollbacks)
+	reorgs     int
 	blocks     []*types.Block // blocks added in this run, oldest first
 	onChain    map[string]int // tx hash -> number of chain blocks holding it
 	execBad    map[string]bool
@@ -482,6 +483,66 @@ func (w *world) delBlock() *types.Block {
 	w.mu.Unlock()
 	w.cast(types.EventDelBlock, &types.BlockDetail{Block: blk})
 	return blk
+}
+
+// reorg models a reorganisation the blockchain has already completed when the
+// pool gets to the first of its notifications: `depth` tip blocks are taken off
+// and the given new blocks connected in the world first; only then are the
+// EventDelBlock and EventAddBlock messages handed to the pool, in chain order.
+// A header query of the pool in between already sees the final tip.
+func (w *world) reorg(depth int, newObjs [][]*built, dt int64) (popped, added []*types.Block) {
+	w.mu.Lock()
+	for d := 0; d < depth && len(w.blocks) > 0; d++ {
+		blk := w.blocks[len(w.blocks)-1]
+		w.blocks = w.blocks[:len(w.blocks)-1]
+		for _, tx := range blk.Txs {
+			h := string(tx.Hash())
+			if w.onChain[h]--; w.onChain[h] <= 0 {
+				delete(w.onChain, h)
+			}
+		}
+		w.hdr = w.hdrStack[len(w.hdrStack)-1]
+		w.hdrStack = w.hdrStack[:len(w.hdrStack)-1]
+		popped = append(popped, blk)
+	}
+	w.reorgs++
+	for _, objs := range newObjs {
+		w.hdrStack = append(w.hdrStack, w.hdr)
+		nh := header{height: w.hdr.height + 1, blockTime: w.hdr.blockTime + dt, stateHash: []byte(fmt.Sprintf("state-%d-%d-r%d", w.hdr.height+1, len(w.blocks), w.reorgs))}
+		if now := time.Now().Unix(); nh.blockTime > now {
+			nh.blockTime = now
+		}
+		if nh.blockTime < w.hdr.blockTime {
+			nh.blockTime = w.hdr.blockTime
+		}
+		blk := &types.Block{Height: nh.height, BlockTime: nh.blockTime, StateHash: nh.stateHash, ParentHash: []byte(fmt.Sprintf("parent-%d-r%d", w.hdr.height, w.reorgs))}
+		for _, b := range objs {
+			dup := false
+			for _, m := range b.members {
+				if w.onChain[m.hash] > 0 {
+					dup = true
+				}
+			}
+			if dup {
+				continue
+			}
+			for _, m := range b.members {
+				blk.Txs = append(blk.Txs, m.tx)
+				w.onChain[m.hash]++
+			}
+		}
+		w.hdr = nh
+		w.blocks = append(w.blocks, blk)
+		added = append(added, blk)
+	}
+	w.mu.Unlock()
+	for _, blk := range popped {
+		w.cast(types.EventDelBlock, &types.BlockDetail{Block: blk})
+	}
+	for _, blk := range added {
+		w.cast(types.EventAddBlock, &types.BlockDetail{Block: blk})
+	}
+	return popped, added
 }
 
 // avoidTick keeps an operation that may wait on a virtual timeout while the pool
